@@ -120,11 +120,19 @@ Definition feature_dropped (mf : fl) (col : list val) : bool :=
 Definition unknown_values (known : list val) (filled : list val) : list val :=
   filter (fun v => negb (mem v known) && negb (py_eq v nan_s)) (uniq filled).
 
-(* order.append(u); order.append(str_nan); order.group(u, str_nan) *)
+(* order.append(u); if str_nan not in order: order.append(str_nan); order.group(u, str_nan)
+   (the guard is the repair "fix: ChainedDiscretizer(unknown_handling='drop') accepts several
+   distinct unknown values"; before it str_nan was appended once per unknown value, which reset
+   content[str_nan] and lost the unknown values grouped so far) *)
+Definition add_unknown (g : gl) (u : val) : res gl :=
+  let g1 := append g u in
+  let g2 := if mem nan_s (keys g1) then g1 else append g1 nan_s in
+  group g2 u nan_s.
+
 Fixpoint drop_unknown (g : gl) (us : list val) : res gl :=
   match us with
   | [] => Ok g
-  | u :: t => do g' <- group (append (append g u) nan_s) u nan_s ; drop_unknown g' t
+  | u :: t => do g' <- add_unknown g u ; drop_unknown g' t
   end.
 
 Definition prepare (c : chained) (drop : bool) (filled : list val) : res gl :=
